@@ -10,6 +10,7 @@ import CirkitModel.Model.Sym
 import CirkitModel.Model.Fold
 import CirkitModel.Model.Mul
 import CirkitModel.Model.Registry
+import CirkitModel.Model.RegionGraph
 
 open Lean Cirkit
 
@@ -335,6 +336,15 @@ def handle (M : Mode R) (s : State R) (j : Json) : Except String (State R × Jso
           | some sh => Json.arr (sh.toArray.map fun n => toJson (n : Nat))
           | none => Json.null),
         ("ok", showArr A t.data)])
+  | "rg" => do
+      -- validity and flags of a serialised region graph
+      let regions ← getNatLL j "regions"
+      let parts ← (← (← j.getObjVal? "partitions").getArr?).toList.mapM fun p => do
+        pure ((← getNat p "out"), (← getNatList p "ins"))
+      let g : RG := { regions := regions.map Scope.ofList, partitions := parts, roots := ← getNatList j "roots" }
+      pure (s, Json.mkObj [("valid", Json.bool g.valid), ("roots_cover", Json.bool g.rootsCover),
+        ("sd", Json.bool g.isSD), ("omni", Json.bool g.isOmni), ("scope", scopeJson g.scope),
+        ("roundtrip", Json.bool (RG.load g.dump == g))])
   | "registry" => do
       -- run the compiler-registry / pipeline-context state machine on an operation history
       let opsJ ← (← j.getObjVal? "ops").getArr?
